@@ -20,6 +20,10 @@ import (
 
 	chain "github.com/comdex-official/comdex/app"
 	assettypes "github.com/comdex-official/comdex/x/asset/types"
+	"github.com/comdex-official/comdex/x/auctionsV2"
+	lendmod "github.com/comdex-official/comdex/x/lend"
+	lendkeeper "github.com/comdex-official/comdex/x/lend/keeper"
+	abci "github.com/cometbft/cometbft/abci/types"
 	auctionsV2types "github.com/comdex-official/comdex/x/auctionsV2/types"
 	esmtypes "github.com/comdex-official/comdex/x/esm/types"
 	lendtypes "github.com/comdex-official/comdex/x/lend/types"
@@ -59,6 +63,7 @@ type c08Env struct {
 	appBad   uint64
 	now      int64
 	height   int64
+	funder   sdk.AccAddress // untracked account that tops up the liquidation module's app reserve
 }
 
 func c08min(a, b int) int {
@@ -142,11 +147,19 @@ func c08Setup(t *testing.T, tr *Trace, rng *Rng, variant int) *c08Env {
 		if err != nil {
 			t.Fatal(err)
 		}
+		if isolated {
+			// AddAssetRatesParams (the single-record proposal handler) drops IsIsolated; the combined proposal AddAssetRatesPoolPairs
+			// stores it — store the record the way that handler does
+			r, _ := k.GetAssetRatesParams(ctx, asset)
+			r.IsIsolated = true
+			k.SetAssetRatesParams(ctx, r)
+		}
 	}
-	rate(a3, "0.8", "0.002", "0.06", "0.6", true, "0.04", "0.04", "0.06", "0.8", "0.85", "0.025", "0.025", "0.1", id("ucasset3"), false)
-	rate(a1, "0.75", "0.002", "0.07", "1.25", false, "0.0", "0.0", "0.0", "0.7", "0.75", "0.05", "0.05", "0.2", id("ucasset1"), false)
-	rate(a2, "0.5", "0.002", "0.08", "2.0", false, "0.0", "0.0", "0.0", "0.5", "0.55", "0.05", "0.05", "0.2", id("ucasset2"), false)
-	rate(a4, "0.65", "0.002", "0.08", "1.5", variant%2 == 1, "0.03", "0.05", "0.07", "0.6", "0.65", "0.05", "0.05", "0.2", id("ucasset4"), variant%5 == 4)
+	// (liquidation bonus different from the liquidation penalty: the fee of the locked vault and the penalty of the close read the penalty)
+	rate(a3, "0.8", "0.002", "0.06", "0.6", true, "0.04", "0.04", "0.06", "0.8", "0.85", "0.025", "0.015", "0.1", id("ucasset3"), false)
+	rate(a1, "0.75", "0.002", "0.07", "1.25", false, "0.0", "0.0", "0.0", "0.7", "0.75", "0.05", "0.03", "0.2", id("ucasset1"), false)
+	rate(a2, "0.5", "0.002", "0.08", "2.0", false, "0.0", "0.0", "0.0", "0.5", "0.55", "0.05", "0.03", "0.2", id("ucasset2"), false)
+	rate(a4, "0.65", "0.002", "0.08", "1.5", variant%2 == 1, "0.03", "0.05", "0.07", "0.6", "0.65", "0.05", "0.03", "0.2", id("ucasset4"), variant%5 == 4)
 
 	pair := func(in, out uint64, inter bool, pool uint64) {
 		if err := k.AddLendPairsRecords(ctx, lendtypes.Extended_Pair{AssetIn: in, AssetOut: out, IsInterPool: inter, AssetOutPoolID: pool, MinUsdValueLeft: 1000000}); err != nil {
@@ -204,7 +217,10 @@ func c08Setup(t *testing.T, tr *Trace, rng *Rng, variant int) *c08Env {
 	}
 
 	// liquidation whitelisting + auction params (x/liquidationsV2/keeper/msg_server_test.go)
-	dutch := liqV2types.DutchAuctionParam{Premium: c08dec("0.1"), Discount: c08dec("0.1"), DecrementFactor: sdk.NewInt(1)}
+	// premium / discount of the Dutch auction: the repository's own fixture (0.1 / 0.1: the collateral is sold at a tenth of the oracle
+	// price and runs out, the app reserve has to cover the rest) and two sensible ones (collateral suffices, the rest returns to the owner)
+	dp := [][2]string{{"1.2", "0.7"}, {"0.1", "0.1"}, {"1.05", "0.9"}}[(variant/2)%3]
+	dutch := liqV2types.DutchAuctionParam{Premium: c08dec(dp[0]), Discount: c08dec(dp[1]), DecrementFactor: sdk.NewInt(1)}
 	app.NewliqKeeper.SetLiquidationWhiteListing(ctx, liqV2types.LiquidationWhiteListing{AppId: e.appOK, Initiator: true, IsDutchActivated: true, DutchAuctionParam: &dutch, IsEnglishActivated: false, KeeeperIncentive: c08dec("0.1")})
 	app.NewaucKeeper.SetAuctionParams(ctx, auctionsV2types.AuctionParams{AuctionDurationSeconds: 3600, Step: c08dec("0.1"), WithdrawalFee: c08dec("0.0"), ClosingFee: c08dec("0.0"), MinUsdValueLeft: 100000, BidFactor: c08dec("0.1"), LiquidationPenalty: c08dec("0.1"), AuctionBonus: c08dec("0.0")})
 
@@ -228,6 +244,8 @@ func c08Setup(t *testing.T, tr *Trace, rng *Rng, variant int) *c08Env {
 			}
 		}
 	}
+	e.funder = make(sdk.AccAddress, 20)
+	e.funder[0], e.funder[19] = 0xF0, 0xC8
 	e.accts = append(e.accts, c08Acct{c08AuctionAcct, authtypes.NewModuleAddress(auctionsV2types.ModuleName)})
 	e.accts = append(e.accts, c08Acct{c08ReserveAcct, authtypes.NewModuleAddress(lendtypes.ModuleName)})
 	for _, p := range k.GetPools(ctx) {
@@ -262,7 +280,8 @@ func (e *c08Env) cfgLines() {
 		tr.Line("lend.cfg.asset", u(a.Id), a.Decimals.String())
 	}
 	for _, r := range k.GetAllAssetRatesParams(ctx) {
-		tr.Line("lend.cfg.rates", u(r.AssetID), r.Ltv.BigInt().String(), r.ELtv.BigInt().String(), u(r.CAssetID), c08b(r.IsIsolated), c08b(r.EnableStableBorrow))
+		tr.Line("lend.cfg.rates", u(r.AssetID), r.Ltv.BigInt().String(), r.ELtv.BigInt().String(), u(r.CAssetID), c08b(r.IsIsolated), c08b(r.EnableStableBorrow),
+			r.LiquidationPenalty.BigInt().String(), r.ELiquidationPenalty.BigInt().String())
 	}
 	for _, p := range k.GetPools(ctx) {
 		var ds []string
@@ -284,7 +303,7 @@ func (e *c08Env) cfgLines() {
 	tr.Line("lend.init", e.state()...)
 }
 
-// state returns the nine projection fields: counters and block time, lends, borrows, totals, balances, prices, emergency flags,
+// state returns the eleven projection fields (the last two: reserve book-keeping records, locked vaults of handed-over borrows): counters and block time, lends, borrows, totals, balances, prices, emergency flags,
 // accrual state of the borrows, accrual state of the lends.
 func (e *c08Env) state() []string {
 	ctx, k := e.ctx, e.app.LendKeeper
@@ -308,7 +327,8 @@ func (e *c08Env) state() []string {
 		return stats[i].AssetID < stats[j].AssetID
 	})
 	for _, s := range stats {
-		ss = append(ss, strings.Join([]string{u(s.PoolID), u(s.AssetID), s.TotalLend.String(), s.TotalBorrowed.String(), s.TotalStableBorrowed.String(), s.TotalInterestAccumulated.String()}, ":"))
+		ss = append(ss, strings.Join([]string{u(s.PoolID), u(s.AssetID), s.TotalLend.String(), s.TotalBorrowed.String(), s.TotalStableBorrowed.String(), s.TotalInterestAccumulated.String(),
+			c08dots(s.LendIds), c08dots(s.BorrowIds)}, ":"))
 	}
 	for _, a := range e.accts {
 		for _, id := range e.assetIDs {
@@ -331,6 +351,7 @@ func (e *c08Env) state() []string {
 			killed = append(killed, a.Id)
 		}
 	}
+	var pending, deleted []uint64
 	if rec, found := k.GetPoolDepreciateRecords(ctx); found {
 		seen := map[uint64]bool{}
 		for _, d := range rec.IndividualPoolDepreciate {
@@ -338,6 +359,14 @@ func (e *c08Env) state() []string {
 				seen[d.PoolID] = true
 				dep = append(dep, d.PoolID)
 			}
+			if !d.IsPoolDepreciated {
+				pending = append(pending, d.PoolID) // record order: the block hook's work list
+			}
+		}
+	}
+	for id := uint64(1); id <= k.GetPoolID(ctx); id++ {
+		if _, found := k.GetPool(ctx, id); !found {
+			deleted = append(deleted, id)
 		}
 	}
 	sort.Slice(killed, func(i, j int) bool { return killed[i] < killed[j] })
@@ -354,7 +383,65 @@ func (e *c08Env) state() []string {
 		}
 		al = append(al, strings.Join([]string{u(l.ID), l.GlobalIndex.BigInt().String(), i64(l.LastInteractionTime.Unix()), trk}, ":"))
 	}
-	return []string{u(k.GetUserLendIDCounter(ctx)) + "," + u(k.GetUserBorrowIDCounter(ctx)) + "," + i64(ctx.BlockTime().Unix()), strings.Join(ls, "|"), strings.Join(bs, "|"), strings.Join(ss, "|"), strings.Join(ks, "|"), strings.Join(ps, "|"), joinU(killed) + "/" + joinU(dep), strings.Join(ab, "|"), strings.Join(al, "|")}
+	// reserve book-keeping per asset: ReserveBuybackAssetData, AllReserveStats, and the sum of the FundReserveBal entries
+	funded := map[uint64]sdk.Int{}
+	if fb, found := k.GetFundReserveBal(ctx); found {
+		for _, f := range fb.FundReserveBalance {
+			if cur, ok := funded[f.AssetID]; ok {
+				funded[f.AssetID] = cur.Add(f.AmountIn.Amount)
+			} else {
+				funded[f.AssetID] = f.AmountIn.Amount
+			}
+		}
+	}
+	var rs []string
+	for _, id := range e.assetIDs {
+		z := sdk.ZeroInt()
+		rec := []sdk.Int{z, z, z, z, z, z, z, z}
+		if r, found := k.GetReserveBuybackAssetData(ctx, id); found {
+			rec[0], rec[1] = r.ReserveAmount, r.BuybackAmount
+		}
+		if a, found := k.GetAllReserveStatsByAssetID(ctx, id); found {
+			rec[2], rec[3], rec[4], rec[5], rec[6] = a.AmountOutFromReserveToLenders, a.AmountOutFromReserveForAuction, a.AmountInFromLiqPenalty, a.AmountInFromRepayments, a.TotalAmountOutToLenders
+		}
+		if f, ok := funded[id]; ok {
+			rec[7] = f
+		}
+		any := false
+		parts := []string{u(id)}
+		for _, x := range rec {
+			if x.IsNil() {
+				x = z
+			}
+			if !x.IsZero() {
+				any = true
+			}
+			parts = append(parts, x.String())
+		}
+		if any {
+			rs = append(rs, strings.Join(parts, ":"))
+		}
+	}
+	// second-generation locked vaults of handed-over borrows
+	var vs []string
+	lvs := e.app.NewliqKeeper.GetLockedVaults(ctx)
+	sort.Slice(lvs, func(i, j int) bool { return lvs[i].OriginalVaultId < lvs[j].OriginalVaultId })
+	for _, lv := range lvs {
+		if lv.InitiatorType == "lend" {
+			vs = append(vs, strings.Join([]string{u(lv.OriginalVaultId), u(e.userNum[lv.Owner]), lv.TargetDebt.Amount.String(), lv.FeeToBeCollected.String()}, ":"))
+		}
+	}
+	return []string{u(k.GetUserLendIDCounter(ctx)) + "," + u(k.GetUserBorrowIDCounter(ctx)) + "," + i64(ctx.BlockTime().Unix()), strings.Join(ls, "|"), strings.Join(bs, "|"), strings.Join(ss, "|"), strings.Join(ks, "|"), strings.Join(ps, "|"), joinU(killed) + "/" + joinU(dep) + "/" + joinU(pending) + "/" + joinU(deleted), strings.Join(ab, "|"), strings.Join(al, "|"),
+		strings.Join(rs, "|"), strings.Join(vs, "|")}
+}
+
+// c08dots prints an id list with "." as separator (inside a ":"-separated record)
+func c08dots(xs []uint64) string {
+	var p []string
+	for _, x := range xs {
+		p = append(p, u(x))
+	}
+	return strings.Join(p, ".")
 }
 
 // ---------------------------------------------------------------------------------------------- external values
@@ -487,6 +574,12 @@ func (e *c08Env) emit(name string, outcome string, args ...string) {
 	if name == "handover" {
 		// own trace kind: the liquidation hand-over is a call site of its own (known_findings.d/C08.json ties D19 to it)
 		e.tr.Line("lend.handover", f[1:]...)
+	} else if name == "beginBlock" {
+		// own trace kind: the block hook of x/lend (DeletePoolAndTransferInterest)
+		e.tr.Line("lend.beginblock", f[1:]...)
+	} else if name == "auctionClose" {
+		// own trace kind: the closing bid of the second-generation auction (MsgCloseDutchAuctionForBorrow)
+		e.tr.Line("lend.close", f[1:]...)
 	} else {
 		e.tr.Line("lend.op", f...)
 	}
@@ -679,11 +772,66 @@ func (e *c08Env) opSetKill(app uint64, on bool) {
 // opSetDepreciated lists a pool in the depreciation record (gov proposal handler AddPoolDepreciate); the flag of the entry is
 // drawn at random: IsPoolDepreciated only looks at the pool id.
 func (e *c08Env) opSetDepreciated(pool uint64) {
-	err := e.app.LendKeeper.AddPoolDepreciate(e.ctx, lendtypes.PoolDepreciate{IndividualPoolDepreciate: []lendtypes.IndividualPoolDepreciate{{PoolID: pool, IsPoolDepreciated: e.rng.Chance(50)}}})
+	e.opSetDepreciatedFlag(pool, e.rng.Chance(50))
+}
+
+func (e *c08Env) opSetDepreciatedFlag(pool uint64, flag bool) {
+	err := e.app.LendKeeper.AddPoolDepreciate(e.ctx, lendtypes.PoolDepreciate{IndividualPoolDepreciate: []lendtypes.IndividualPoolDepreciate{{PoolID: pool, IsPoolDepreciated: flag}}})
 	if err != nil {
 		e.t.Fatal(err)
 	}
-	e.emit("setDepreciated", "ok", u(pool))
+	e.emit("setDepreciated", "ok", u(pool), c08b(flag))
+}
+
+// opMigrate runs the registered store migration 2 → 3 of x/lend (Migrator.Migrate2to3, what an upgrade from consensus version 2
+// executes) in the middle of the history and prints the configuration it leaves behind; the state projection must be unchanged.
+func (e *c08Env) opMigrate() {
+	k := e.app.LendKeeper
+	res := "ok"
+	var err error
+	if p, _ := try(func() { err = lendkeeper.NewMigrator(k).Migrate2to3(e.ctx) }); p {
+		res = "panic"
+	} else if err != nil {
+		res = "err"
+	}
+	var ps, rs []string
+	for _, p := range k.GetLendPairs(e.ctx) {
+		ps = append(ps, u(p.Id)+":"+c08tf(p.IsInterPool)+":"+c08tf(p.IsEModeEnabled))
+	}
+	for _, r := range k.GetAllAssetRatesParams(e.ctx) {
+		rs = append(rs, strings.Join([]string{u(r.AssetID), c08tf(r.EnableStableBorrow), c08tf(r.IsIsolated), r.ELtv.BigInt().String(), r.ELiquidationPenalty.BigInt().String(),
+			r.Ltv.BigInt().String(), u(r.CAssetID), r.LiquidationPenalty.BigInt().String()}, ":"))
+	}
+	f := []string{strings.Join(ps, ","), strings.Join(rs, ","), res}
+	f = append(f, e.state()...)
+	e.tr.Line("lend.migrate", f...)
+	e.tr.Count("op:migrate:" + res)
+}
+
+func c08tf(b bool) string {
+	if b {
+		return "true"
+	}
+	return "false"
+}
+
+// opBeginBlock moves to the next block height divisible by 14400 and runs the real BeginBlocker of x/lend
+// (DeletePoolAndTransferInterest inside ApplyFuncIfNoError). The outcome class is taken from a probe run of the same call on a
+// throw-away cache context (the hook itself swallows error and panic).
+func (e *c08Env) opBeginBlock() string {
+	e.height = (e.height/14400 + 1) * 14400
+	e.now += 6
+	e.ctx = e.ctx.WithBlockTime(time.Unix(e.now, 0).UTC()).WithBlockHeight(e.height)
+	res := "ok"
+	var err error
+	if p, _ := try(func() { err = e.app.LendKeeper.DeletePoolAndTransferInterest(e.probe()) }); p {
+		res = "panic"
+	} else if err != nil {
+		res = "err"
+	}
+	lendmod.BeginBlocker(e.ctx, abci.RequestBeginBlock{}, e.app.LendKeeper)
+	e.emit("beginBlock", res)
+	return res
 }
 
 func (e *c08Env) opSetPrice(asset, twa uint64) {
@@ -691,27 +839,47 @@ func (e *c08Env) opSetPrice(asset, twa uint64) {
 	e.emit("setPrice", "ok", u(asset), u(twa))
 }
 
-// opLiquidate runs the real V2 liquidation of one borrow (LiquidateIndividualBorrow, as the sweep and MsgLiquidate do) on a
-// cache context; a line is emitted only when the borrow was actually handed over (the decision itself is property C09).
-func (e *c08Env) opLiquidate(borrowID uint64) bool {
+// liqRates: the rates CalculateBorrowInterestForLiquidation is about to use for the borrow (inputs of the model's accrual)
+func (e *c08Env) liqRates(b lendtypes.BorrowAsset) string {
+	k := e.app.LendKeeper
+	rates := "-"
+	try(func() {
+		pair, _ := k.GetLendPair(e.ctx, b.PairID)
+		rr, err := k.GetReserveRate(e.ctx, pair.AssetOutPoolID, pair.AssetOut)
+		apr, err2 := k.GetBorrowAPRByAssetID(e.ctx, pair.AssetOutPoolID, pair.AssetOut, b.IsStableBorrow)
+		if err == nil && err2 == nil {
+			rates = apr.BigInt().String() + ":" + rr.BigInt().String()
+		}
+	})
+	return rates
+}
+
+// opLiquidate runs the real V2 liquidation of one borrow on a cache context — by the keeper entry point the sweep calls
+// (LiquidateIndividualBorrow, via = 0) or by the user message MsgLiquidateInternalKeeper (via = 1: ValidateBasic + routed handler);
+// a line is emitted only when the borrow was actually handed over (the decision itself is property C09).
+func (e *c08Env) opLiquidate(borrowID uint64, via int) bool {
 	k := e.app.LendKeeper
 	before, found := k.GetBorrow(e.ctx, borrowID)
 	if !found || before.IsLiquidated {
 		return false
 	}
-	// the rates CalculateBorrowInterestForLiquidation uses (inputs of the model's accrual), read before the call
-	rates := "-"
-	try(func() {
-		pair, _ := k.GetLendPair(e.ctx, before.PairID)
-		rr, err := k.GetReserveRate(e.ctx, pair.AssetOutPoolID, pair.AssetOut)
-		apr, err2 := k.GetBorrowAPRByAssetID(e.ctx, pair.AssetOutPoolID, pair.AssetOut, before.IsStableBorrow)
-		if err == nil && err2 == nil {
-			rates = apr.BigInt().String() + ":" + rr.BigInt().String()
-		}
-	})
+	rates := e.liqRates(before)
 	cctx, write := e.ctx.CacheContext()
 	var err error
-	panicked, pmsg := try(func() { err = e.app.NewliqKeeper.LiquidateIndividualBorrow(cctx, borrowID, "", false) })
+	var panicked bool
+	var pmsg string
+	if via == 1 {
+		msg := liqV2types.NewMsgLiquidateInternalKeeperRequest(e.user().addr, 1, borrowID)
+		if verr := msg.ValidateBasic(); verr != nil {
+			e.tr.Count("liquidate:msg:basic")
+			return false
+		}
+		h := e.app.MsgServiceRouter().Handler(msg)
+		panicked, pmsg = try(func() { _, err = h(cctx, msg) })
+		e.tr.Count("liquidate:viaMsg")
+	} else {
+		panicked, pmsg = try(func() { err = e.app.NewliqKeeper.LiquidateIndividualBorrow(cctx, borrowID, "", false) })
+	}
 	if panicked || err != nil {
 		if err != nil {
 			pmsg = err.Error()
@@ -732,10 +900,192 @@ func (e *c08Env) opLiquidate(borrowID uint64) bool {
 	return true
 }
 
+// opSweep runs the real sweep LiquidateBorrows (what the BeginBlocker of x/liquidationsV2 calls) with a batch size of one: it walks
+// the id list GetBorrows — the concatenation of the BorrowIds lists of the pool-asset records — from its stored offset. At most one
+// borrow is handed over per call; the line is the same hand-over line.
+func (e *c08Env) opSweep() bool {
+	k := e.app.LendKeeper
+	e.app.NewliqKeeper.SetParams(e.ctx, liqV2types.NewParams(1))
+	rates := map[uint64]string{}
+	for _, b := range k.GetAllBorrow(e.ctx) {
+		if !b.IsLiquidated {
+			rates[b.ID] = e.liqRates(b)
+		}
+	}
+	var err error
+	if p, _ := try(func() { err = e.app.NewliqKeeper.LiquidateBorrows(e.ctx, 1) }); p || err != nil {
+		e.tr.Count("sweep:fail")
+		return false
+	}
+	e.tr.Count("sweep")
+	for _, b := range k.GetAllBorrow(e.ctx) {
+		if r, was := rates[b.ID]; was && b.IsLiquidated {
+			e.tr.Count("sweep:handover")
+			e.emit("handover", "ok", u(b.ID), b.InterestAccumulated.BigInt().String(), r)
+			return true
+		}
+	}
+	return false
+}
+
 func (e *c08Env) advance(sec int64) {
 	e.now += sec
 	e.height++
 	e.ctx = e.ctx.WithBlockTime(time.Unix(e.now, 0).UTC()).WithBlockHeight(e.height)
+	if len(e.app.NewaucKeeper.GetAuctions(e.ctx)) > 0 {
+		// price decay / restart of the open Dutch auctions (auction records only; the lending books are not touched — the next line's
+		// projection would show it otherwise)
+		if p, _ := try(func() { auctionsV2.BeginBlocker(e.ctx, e.app.NewaucKeeper) }); p {
+			e.tr.Count("auction:beginblock:panic")
+		}
+	}
+}
+
+// ---------------------------------------------------------------------------------------------- after the hand-over: bids
+
+type c08Auc struct {
+	auc auctionsV2types.Auction
+	lv  liqV2types.LockedVault
+}
+
+// lendAuctions lists the open second-generation auctions of handed-over borrows, by borrow id.
+func (e *c08Env) lendAuctions() []c08Auc {
+	var out []c08Auc
+	for _, a := range e.app.NewaucKeeper.GetAuctions(e.ctx) {
+		lv, found := e.app.NewliqKeeper.GetLockedVault(e.ctx, a.AppId, a.LockedVaultId)
+		if found && lv.InitiatorType == "lend" {
+			out = append(out, c08Auc{a, lv})
+		}
+	}
+	sort.Slice(out, func(i, j int) bool { return out[i].lv.OriginalVaultId < out[j].lv.OriginalVaultId })
+	return out
+}
+
+// opBid delivers MsgPlaceMarketBid. An accepted partial fill is a `bid` line, an accepted closing bid an `auctionClose` line (trace
+// kind lend.close); the amounts that changed hands on the auction side (property C10) are read off the balances and printed as inputs.
+// A refused bid changes nothing and prints nothing — except a PANIC of a bid that covers the whole target: that is the lend branch
+// of the close failing, printed as a rejected auctionClose so that the model has to agree.
+func (e *c08Env) opBid(usr c08Acct, a c08Auc, amt sdk.Int) string {
+	bk := e.app.BankKeeper
+	debt, coll := a.auc.DebtToken.Denom, a.auc.CollateralToken.Denom
+	ownerAddr, _ := sdk.AccAddressFromBech32(a.lv.Owner)
+	liqMod := authtypes.NewModuleAddress(liqV2types.ModuleName)
+	bal := func(addr sdk.AccAddress, d string) sdk.Int { return bk.GetBalance(e.ctx, addr, d).Amount }
+	ud0, uc0, oc0, r0 := bal(usr.addr, debt), bal(usr.addr, coll), bal(ownerAddr, coll), bal(liqMod, debt)
+	orphanBridge := false // a cross-pool borrow whose lend position was deleted by the hand-over
+	if b, f := e.app.LendKeeper.GetBorrow(e.ctx, a.lv.OriginalVaultId); f {
+		_, lendFound := e.app.LendKeeper.GetLend(e.ctx, b.LendingID)
+		orphanBridge = !lendFound && b.BridgedAssetAmount.Amount.IsPositive()
+		if orphanBridge {
+			e.tr.Count("bid:crossPoolBorrowOfDeletedLend")
+		}
+	}
+	res := e.deliver(auctionsV2types.NewMsgPlaceMarketBid(usr.addr.String(), a.auc.AuctionId, sdk.Coin{Denom: debt, Amount: amt}))
+	bid := u(a.lv.OriginalVaultId)
+	if res != "ok" {
+		e.tr.Count("bid:" + res)
+		// a panic of the bank call inside MsgCloseDutchAuctionForBorrow (empty module name: the lend position that names the collateral's
+		// pool is gone) — the lend branch of the close; every other refusal is the auction side's (property C10)
+		if res == "panic" && amt.GTE(a.auc.DebtToken.Amount) && orphanBridge {
+			e.tr.Count("close:stuck:lendDeleted")
+			e.emit("auctionClose", res, u(usr.num), bid, a.auc.DebtToken.Amount.String(), "0", "0", "0")
+		}
+		return res
+	}
+	paid := ud0.Sub(bal(usr.addr, debt))
+	recv := bal(usr.addr, coll).Sub(uc0)
+	if _, err := e.app.NewaucKeeper.GetAuction(e.ctx, a.auc.AuctionId); err == nil {
+		e.emit("bid", res, u(usr.num), bid, paid.String(), recv.String())
+		return res
+	}
+	left := sdk.ZeroInt()
+	if !ownerAddr.Equals(usr.addr) {
+		left = bal(ownerAddr, coll).Sub(oc0)
+	}
+	topUp := r0.Sub(bal(liqMod, debt))
+	if topUp.IsPositive() {
+		e.tr.Count("close:appReserveTopUp")
+	}
+	if left.IsPositive() {
+		e.tr.Count("close:leftoverToOwner")
+	}
+	if ownerAddr.Equals(usr.addr) {
+		e.tr.Count("close:bidderIsOwner")
+	}
+	e.emit("auctionClose", res, u(usr.num), bid, paid.String(), recv.String(), left.String(), topUp.String())
+	return res
+}
+
+// genBid: a partial fill or a closing bid on one of the open auctions.
+func (e *c08Env) genBid() {
+	as := e.lendAuctions()
+	if len(as) == 0 {
+		e.tr.Count("gen:bid:noAuction")
+		return
+	}
+	a := as[e.rng.Intn(len(as))]
+	usr := e.user()
+	debt := a.auc.DebtToken.Amount
+	var amt sdk.Int
+	switch e.rng.Intn(5) {
+	case 0, 1:
+		// partial fill: what is left must stay above the dust limit
+		if debt.GT(sdk.NewInt(4)) && debt.IsInt64() {
+			amt = e.rint(1, debt.Int64()/2)
+		} else {
+			amt = sdk.NewInt(1)
+		}
+	case 2:
+		amt = e.around(debt)
+	default:
+		amt = debt.Add(e.rint(0, 1000))
+	}
+	if !amt.IsPositive() {
+		amt = sdk.NewInt(1)
+	}
+	e.opBid(usr, a, amt)
+}
+
+// genCrash: the price of a collateral asset falls by 35-60 %, every borrow is offered to the liquidation, some of the new auctions are
+// filled at once; the price may recover afterwards.
+func (e *c08Env) genCrash() {
+	asset := e.base[e.rng.Intn(len(e.base))]
+	// prefer the collateral asset of some open borrow
+	if b, ok := e.pickBorrow(); ok {
+		pair, _ := e.app.LendKeeper.GetLendPair(e.ctx, b.PairID)
+		asset = pair.AssetIn
+	}
+	twa, found := e.app.MarketKeeper.GetTwa(e.ctx, asset)
+	if !found || !twa.IsPriceActive || twa.Twa < 1000 {
+		return
+	}
+	old := twa.Twa
+	e.tr.Count("gen:crash")
+	e.opSetPrice(asset, old*uint64(e.rng.Range(40, 65))/100)
+	e.genLiquidate()
+	e.advance(int64(e.rng.Range(1, 1800)))
+	n := len(e.lendAuctions())
+	for i := 0; i < n && i < 4; i++ {
+		if e.rng.Chance(70) {
+			e.genBid()
+		}
+	}
+	if e.rng.Chance(60) {
+		e.opSetPrice(asset, old*uint64(e.rng.Range(85, 110))/100)
+	}
+}
+
+// fundAppReserve tops up the liquidation module's reserve of the app for the asset (MsgAppReserveFunds) from the untracked funder.
+func (e *c08Env) fundAppReserve(asset uint64, amt sdk.Int) {
+	c := sdk.NewCoins(e.coin(asset, amt))
+	if err := e.app.BankKeeper.MintCoins(e.ctx, liqV2types.ModuleName, c); err != nil {
+		e.t.Fatal(err)
+	}
+	if err := e.app.BankKeeper.SendCoinsFromModuleToAccount(e.ctx, liqV2types.ModuleName, e.funder, c); err != nil {
+		e.t.Fatal(err)
+	}
+	res := e.deliver(liqV2types.NewMsgAppReserveFundsRequest(e.funder.String(), e.appOK, asset, e.coin(asset, amt)))
+	e.tr.Count("appReserve:" + res)
 }
 
 // ---------------------------------------------------------------------------------------------- generators
@@ -1307,9 +1657,22 @@ func (e *c08Env) genPrice() {
 
 func (e *c08Env) genLiquidate() {
 	bs := e.app.LendKeeper.GetAllBorrow(e.ctx)
+	if e.rng.Chance(25) {
+		// the real sweep, one borrow per call, once around the id list
+		for i := 0; i <= len(bs); i++ {
+			if e.opSweep() {
+				e.tr.Count("liquidate:handover")
+			}
+		}
+		return
+	}
 	for _, b := range bs {
 		if !b.IsLiquidated {
-			if e.opLiquidate(b.ID) {
+			via := 0
+			if e.rng.Chance(30) {
+				via = 1
+			}
+			if e.opLiquidate(b.ID, via) {
 				e.tr.Count("liquidate:handover")
 			}
 		}
@@ -1433,6 +1796,204 @@ func c08CorpusGuards(t *testing.T, tr *Trace, rng *Rng) {
 	e.opCloseLend(u1, 1)
 }
 
+// c08CorpusAuctionClose — directed coverage of the life after the hand-over: a same-pool borrow is handed over, filled in two steps
+// (partial fill, closing bid) and disappears; the lend position stays debited; a cross-pool borrow that pledged the whole position
+// is handed over (the position is deleted) and its closing bid cannot succeed (see notes/C08.md, observation on
+// MsgCloseDutchAuctionForBorrow).
+func c08CorpusAuctionClose(t *testing.T, tr *Trace, rng *Rng, variant int) {
+	e := c08Setup(t, tr, rng, variant)
+	e.cfgLines()
+	tr.Count("corpus")
+	a1, a2, a4 := e.base[0], e.base[1], e.base[3]
+	u1, u2, u3, u4 := e.users[0], e.users[1], e.users[2], e.users[3]
+	n := func(x int64) sdk.Int { return sdk.NewInt(x) }
+	for _, a := range e.base {
+		e.fundAppReserve(a, n(20_000_000_000))
+	}
+	e.opLend(u2, a2, e.denomOf[a2], n(50_000_000_000), 1, e.appOK) // lend 1
+	e.opLend(u3, a1, e.denomOf[a1], n(10_000_000_000), 1, e.appOK) // lend 2
+	e.opLend(u4, a4, e.denomOf[a4], n(20_000_000_000), 2, e.appOK) // lend 3
+	e.opLend(u1, a1, e.denomOf[a1], n(1_000_000_000), 1, e.appOK)  // lend 4
+	e.opFundModule(u4, 1, e.base[2], e.coin(e.base[2], n(10_000_000_000)))
+	e.opFundModule(u4, 2, e.base[2], e.coin(e.base[2], n(10_000_000_000)))
+	e.opFundReserve(u4, a2, e.coin(a2, n(1_000_000_001)))
+	// same-pool borrow of u3: 6e9 cA1 (of 10e9) pledged for A2 at the LTV limit
+	max := e.maxLoan(a1, n(6_000_000_000), a2, c08dec("0.7"), sdk.ZeroInt())
+	e.opBorrow(u3, 2, 3, false, sdk.Coin{Denom: e.cDenom(a1), Amount: n(6_000_000_000)}, e.coin(a2, max))
+	// cross-pool borrow of u1 (pair 15: A1 → A4 of pool 2) pledging the WHOLE position
+	// (second LTV check on the bridged transit asset A3, LTV 0.8: at most 0.7 * 0.8 of the collateral value)
+	maxX := e.maxLoan(a1, n(1_000_000_000), a4, c08dec("0.7"), sdk.ZeroInt()).MulRaw(76).QuoRaw(100)
+	e.opBorrow(u1, 4, 15, false, sdk.Coin{Denom: e.cDenom(a1), Amount: n(1_000_000_000)}, e.coin(a4, maxX))
+	e.advance(40 * 86400)
+	e.opCalc(u3)
+	twa, _ := e.app.MarketKeeper.GetTwa(e.ctx, a1)
+	e.opSetPrice(a1, twa.Twa*6/10)
+	e.genLiquidate()
+	e.advance(600)
+	for _, a := range e.lendAuctions() {
+		if a.lv.OriginalVaultId == 1 {
+			e.opBid(u4, a, a.auc.DebtToken.Amount.QuoRaw(3))
+		}
+	}
+	e.advance(600)
+	e.opWithdraw(u3, 2, e.denomOf[a1], n(1_000_000)) // the rest of the position stays usable while the auction runs
+	for _, a := range e.lendAuctions() {
+		e.opBid(u2, a, a.auc.DebtToken.Amount.AddRaw(5))
+	}
+	e.opCalc(u3)
+	e.opCalc(u2)
+	e.opWithdraw(u3, 2, e.denomOf[a1], n(1_000_000))
+}
+
+// c08CorpusEMode — directed coverage: pair 5 (A3 → A2, pool 1) is an e-mode pair (e-LTV 0.9, e-threshold 0.95, e-penalty 0.02): a
+// borrow above the normal LTV, a draw to the e-LTV limit, liquidation under the e-mode threshold, and the close, whose penalty is the
+// e-mode penalty while the hand-over charged the normal one (the fee of the locked vault).
+func c08CorpusEMode(t *testing.T, tr *Trace, rng *Rng) {
+	e := c08Setup(t, tr, rng, 0)
+	e.cfgLines()
+	tr.Count("corpus")
+	a2, a3 := e.base[1], e.base[2]
+	u1, u2, u4 := e.users[0], e.users[1], e.users[3]
+	n := func(x int64) sdk.Int { return sdk.NewInt(x) }
+	e.fundAppReserve(a2, n(20_000_000_000))
+	e.opLend(u2, a2, e.denomOf[a2], n(50_000_000_000), 1, e.appOK) // lend 1
+	e.opLend(u1, a3, e.denomOf[a3], n(10_000_000_000), 1, e.appOK) // lend 2
+	pair, _ := e.app.LendKeeper.GetLendPair(e.ctx, 5)
+	max := e.maxLoan(a3, n(8_000_000_000), a2, e.pairLTV(pair), sdk.ZeroInt())
+	e.opBorrow(u1, 2, 5, false, sdk.Coin{Denom: e.cDenom(a3), Amount: n(8_000_000_000)}, e.coin(a2, max.AddRaw(1))) // one above the e-LTV: refused
+	e.opBorrow(u1, 2, 5, false, sdk.Coin{Denom: e.cDenom(a3), Amount: n(8_000_000_000)}, e.coin(a2, max.MulRaw(95).QuoRaw(100)))
+	e.advance(86400)
+	b, _ := e.app.LendKeeper.GetBorrow(e.ctx, 1)
+	room := max.Sub(b.AmountOut.Amount).SubRaw(1_000_000)
+	e.opDraw(u1, 1, e.coin(a2, room))
+	e.opDraw(u1, 1, e.coin(a2, n(5_000_000))) // beyond the e-LTV
+	e.advance(200 * 86400)
+	e.opCalc(u1)
+	twa, _ := e.app.MarketKeeper.GetTwa(e.ctx, a3)
+	e.opSetPrice(a3, twa.Twa*8/10)
+	e.opLiquidate(1, 1)
+	e.advance(300)
+	for _, a := range e.lendAuctions() {
+		e.opBid(u4, a, a.auc.DebtToken.Amount)
+	}
+	e.opCalc(u2)
+}
+
+// c08CorpusIsolated — directed coverage: A4 is isolated collateral (variant 4): a user who borrows against it cannot open a second
+// borrow against another position of that asset, and nobody is stopped by somebody else's borrow.
+func c08CorpusIsolated(t *testing.T, tr *Trace, rng *Rng) {
+	e := c08Setup(t, tr, rng, 4)
+	e.cfgLines()
+	tr.Count("corpus")
+	a1, a3, a4 := e.base[0], e.base[2], e.base[3]
+	u1, u2, u4 := e.users[0], e.users[1], e.users[3]
+	n := func(x int64) sdk.Int { return sdk.NewInt(x) }
+	e.opFundModule(u4, 2, a3, e.coin(a3, n(10_000_000_000)))
+	e.opFundModule(u4, 2, a1, e.coin(a1, n(10_000_000_000)))
+	e.opLend(u1, a4, e.denomOf[a4], n(5_000_000_000), 2, e.appOK) // lend 1
+	e.opLend(u2, a4, e.denomOf[a4], n(5_000_000_000), 2, e.appOK) // lend 2
+	cA4 := func(x int64) sdk.Coin { return sdk.Coin{Denom: e.cDenom(a4), Amount: n(x)} }
+	e.opBorrow(u1, 1, 7, false, cA4(1_000_000_000), e.coin(a3, n(100_000_000)))          // borrow 1 (A4 → A3)
+	e.opBorrow(u1, 1, 8, false, cA4(1_000_000_000), e.coin(a1, n(100_000_000)))          // second pair on the isolated asset: refused
+	e.opBorrow(u1, 1, 7, true, cA4(500_000_000), e.coin(a3, n(10_000_000)))              // same pair: deposit-and-draw, allowed
+	e.opBorrow(u2, 2, 8, e.stableOK(a4), cA4(1_000_000_000), e.coin(a1, n(100_000_000))) // another user is not affected
+	e.opCloseBorrow(u1, 1)
+	e.opBorrow(u1, 1, 8, false, cA4(1_000_000_000), e.coin(a1, n(100_000_000))) // after the close it works
+}
+
+// c08CorpusSecondTransit — directed coverage of the SECOND transit asset: pool 1 is short of its first transit asset (A3 is lent out),
+// so a cross-pool borrow bridges A1; a stable-rate borrow on that path, a collateral top-up (DepositBorrowAsset's second branch), the
+// liquidation's third condition and the close that sends the bridged A1 back.
+func c08CorpusSecondTransit(t *testing.T, tr *Trace, rng *Rng) {
+	e := c08Setup(t, tr, rng, 0)
+	e.cfgLines()
+	tr.Count("corpus")
+	a1, a2, a3, a4 := e.base[0], e.base[1], e.base[2], e.base[3]
+	u1, u2, u3, u4 := e.users[0], e.users[1], e.users[2], e.users[3]
+	n := func(x int64) sdk.Int { return sdk.NewInt(x) }
+	e.fundAppReserve(a4, n(20_000_000_000))
+	e.opLend(u1, a3, e.denomOf[a3], n(10_000_000_000), 1, e.appOK) // lend 1: the collateral (stable borrowing enabled for A3)
+	e.opLend(u2, a2, e.denomOf[a2], n(60_000_000_000), 1, e.appOK) // lend 2
+	e.opLend(u3, a1, e.denomOf[a1], n(20_000_000_000), 1, e.appOK) // lend 3: pool 1 holds plenty of the second transit asset
+	e.opLend(u4, a4, e.denomOf[a4], n(30_000_000_000), 2, e.appOK) // lend 4: what is borrowed
+	// u2 borrows nearly all A3 of pool 1 (pair 1: A2 → A3)
+	e.opBorrow(u2, 2, 1, false, sdk.Coin{Denom: e.cDenom(a2), Amount: n(40_000_000_000)}, e.coin(a3, n(9_999_000_000)))
+	// u1: cross-pool stable borrow (pair 14: A3 → A4 of pool 2) — the first transit asset is short, A1 is bridged
+	loan := e.maxLoan(a3, n(4_000_000_000), a4, c08dec("0.8"), sdk.ZeroInt()).MulRaw(66).QuoRaw(100)
+	e.opBorrow(u1, 1, 14, true, sdk.Coin{Denom: e.cDenom(a3), Amount: n(4_000_000_000)}, e.coin(a4, loan))
+	e.advance(30 * 86400)
+	e.opDepositBorrow(u1, 2, sdk.Coin{Denom: e.cDenom(a3), Amount: n(500_000_000)})
+	e.opDraw(u1, 2, e.coin(a4, n(1_000_000)))
+	e.advance(100 * 86400)
+	e.opCalc(u1)
+	twa, _ := e.app.MarketKeeper.GetTwa(e.ctx, a3)
+	e.opSetPrice(a3, twa.Twa*55/100)
+	e.opSweep() // pool 1 cannot hand the collateral over: its A3 is lent out (the liquidation is refused, nothing changes)
+	e.opFundModule(u4, 1, a3, e.coin(a3, n(10_000_000_000)))
+	for i := 0; i < 4; i++ {
+		e.opSweep()
+	}
+	e.advance(300)
+	for _, a := range e.lendAuctions() {
+		e.opBid(u3, a, a.auc.DebtToken.Amount)
+	}
+	e.opCalc(u1)
+}
+
+// c08CorpusMigration — the store migration 2 → 3 in the middle of a history: an e-mode borrow above the normal LTV and a stable
+// borrow exist; afterwards e-mode is off (the position is over its limit: no draw, repay works), the books are untouched — and the
+// asset-rates record that follows one with stable borrowing has stable borrowing enabled (the decode loop's stale variable).
+func c08CorpusMigration(t *testing.T, tr *Trace, rng *Rng) {
+	e := c08Setup(t, tr, rng, 0)
+	e.cfgLines()
+	tr.Count("corpus")
+	a2, a3, a4 := e.base[1], e.base[2], e.base[3]
+	u1, u2, u4 := e.users[0], e.users[1], e.users[3]
+	n := func(x int64) sdk.Int { return sdk.NewInt(x) }
+	e.opLend(u2, a2, e.denomOf[a2], n(50_000_000_000), 1, e.appOK) // lend 1
+	e.opLend(u1, a3, e.denomOf[a3], n(10_000_000_000), 1, e.appOK) // lend 2
+	e.opLend(u4, a4, e.denomOf[a4], n(10_000_000_000), 2, e.appOK) // lend 3
+	e.opFundModule(u4, 2, a3, e.coin(a3, n(10_000_000_000)))
+	pair, _ := e.app.LendKeeper.GetLendPair(e.ctx, 5)
+	max := e.maxLoan(a3, n(8_000_000_000), a2, e.pairLTV(pair), sdk.ZeroInt())
+	e.opBorrow(u1, 2, 5, false, sdk.Coin{Denom: e.cDenom(a3), Amount: n(8_000_000_000)}, e.coin(a2, max.MulRaw(97).QuoRaw(100))) // e-mode: above LTV 0.8
+	e.opBorrow(u4, 3, 7, true, sdk.Coin{Denom: e.cDenom(a4), Amount: n(1_000_000_000)}, e.coin(a3, n(100_000_000)))            // stable borrowing is off for A4
+	e.advance(86400)
+	e.opMigrate()
+	e.opDraw(u1, 1, e.coin(a2, n(1_000_000)))                                                                             // over the (now normal) LTV
+	e.opRepay(u1, 1, e.coin(a2, n(50_000_000)))                                                                           // repaying still works
+	e.opBorrow(u4, 3, 7, true, sdk.Coin{Denom: e.cDenom(a4), Amount: n(1_000_000_000)}, e.coin(a3, n(100_000_000))) // accepted now: the leak
+	e.advance(86400)
+	e.opCalc(u4)
+	e.opCalc(u1)
+	e.opMigrate() // a second run changes nothing more
+}
+
+// c08CorpusPoolDeletion — the block hook of x/lend: a depreciated pool without positions is swept into the reserve and deleted; the
+// record's flag is set on a copy, so the next run of the hook finds the entry again, reads the deleted pool as a zero record and panics
+// (the hook is then without effect for EVERY entry, also those listed after it).
+func c08CorpusPoolDeletion(t *testing.T, tr *Trace, rng *Rng) {
+	e := c08Setup(t, tr, rng, 0)
+	e.cfgLines()
+	tr.Count("corpus")
+	a1, a4 := e.base[0], e.base[3]
+	u1, u2, u4 := e.users[0], e.users[1], e.users[3]
+	n := func(x int64) sdk.Int { return sdk.NewInt(x) }
+	e.opLend(u1, a4, e.denomOf[a4], n(5_000_000_001), 2, e.appOK) // lend 1 (pool 2)
+	e.opLend(u2, a1, e.denomOf[a1], n(3_000_000_000), 1, e.appOK) // lend 2 (pool 1)
+	e.opFundModule(u4, 2, a1, e.coin(a1, n(777_777_777)))
+	e.opFundModule(u4, 2, a4, e.coin(a4, n(1_000_001)))
+	e.opFundModule(u4, 2, e.base[2], e.coin(e.base[2], n(33_333_333)))
+	e.opSetDepreciatedFlag(2, false)
+	e.opBeginBlock() // lend 1 still open: nothing happens
+	e.opCloseLend(u1, 1)
+	e.opBeginBlock() // pool 2 is swept into the reserve and deleted
+	e.opSetDepreciatedFlag(1, false)
+	e.opCloseLend(u2, 2)
+	e.opBeginBlock() // the stale entry of pool 2 makes the hook panic: pool 1 is never swept
+	e.opBeginBlock()
+}
+
 // ---------------------------------------------------------------------------------------------- test
 
 func TestC08(t *testing.T) {
@@ -1443,6 +2004,13 @@ func TestC08(t *testing.T) {
 	c08CorpusHandover(t, tr, rng)
 	c08CorpusTwinLends(t, tr, rng)
 	c08CorpusGuards(t, tr, rng)
+	c08CorpusAuctionClose(t, tr, rng, 0)
+	c08CorpusAuctionClose(t, tr, rng, 2)
+	c08CorpusEMode(t, tr, rng)
+	c08CorpusIsolated(t, tr, rng)
+	c08CorpusSecondTransit(t, tr, rng)
+	c08CorpusPoolDeletion(t, tr, rng)
+	c08CorpusMigration(t, tr, rng)
 	seqs := scale(24, 300)
 	maxOps := scale(90, 160)
 	for s := 0; s < seqs; s++ {
@@ -1465,6 +2033,12 @@ func TestC08(t *testing.T) {
 				if rng.Chance(75) {
 					e.opFundReserve(e.user(), a, e.coin(a, e.rint(100_000_000, 3_000_000_000)))
 				}
+			}
+		}
+		for _, a := range e.base {
+			// the liquidation module's app reserve covers the debt an auction cannot recover once the collateral is sold out
+			if rng.Chance(60) {
+				e.fundAppReserve(a, e.rint(1_000_000, 50_000_000_000))
 			}
 		}
 		nops := rng.Range(maxOps/2, maxOps)
@@ -1490,6 +2064,12 @@ func TestC08(t *testing.T) {
 				e.advance(int64(rng.Range(30*86400, 400*86400)))
 			default:
 				e.advance(int64(rng.Range(0, 60)))
+			}
+			if rng.Chance(12) && len(e.lendAuctions()) > 0 {
+				e.genBid()
+			}
+			if o == nops/2 && s%4 == 1 {
+				e.opMigrate() // the store migration 2 → 3 in the middle of every fourth history
 			}
 			bad := rng.Chance(18)
 			if bad {
@@ -1525,8 +2105,12 @@ func TestC08(t *testing.T) {
 				e.opCalc(e.user())
 			case p < 95:
 				e.genPrice()
-			case p < 98:
+			case p < 95:
 				e.genLiquidate()
+			case p < 96:
+				e.genBid()
+			case p < 98:
+				e.genCrash()
 			case p < 99 && rng.Chance(40):
 				// emergency controls: the kill switch is toggled (it stays on for the next few messages), late in a history a pool
 				// may be depreciated for good
@@ -1544,16 +2128,42 @@ func TestC08(t *testing.T) {
 			case p < 99:
 				usr := e.user()
 				a := e.base[rng.Intn(4)]
-				e.opFundReserve(usr, a, e.coin(a, e.rint(1, 2_000_000_000)))
+				c := e.coin(a, e.rint(1, 2_000_000_000))
+				if bad {
+					c.Denom = e.denomOf[e.base[rng.Intn(4)]] // maybe another asset's denomination
+				}
+				e.opFundReserve(usr, a, c)
 			default:
 				usr := e.user()
 				a := e.base[rng.Intn(4)]
 				ps := e.poolsOf(a)
-				e.opFundModule(usr, ps[rng.Intn(len(ps))], a, e.coin(a, e.rint(1, 2_000_000_000)))
+				c := e.coin(a, e.rint(1, 2_000_000_000))
+				pool := ps[rng.Intn(len(ps))]
+				if bad {
+					if rng.Chance(50) {
+						c.Denom = e.denomOf[e.base[rng.Intn(4)]]
+					} else {
+						pool = uint64(rng.Range(0, 4))
+					}
+				}
+				e.opFundModule(usr, pool, a, c)
+			}
+		}
+		// wind down: closing bids on the auctions that are still open, then the owners look at their positions again
+		e.advance(int64(rng.Range(1, 3000)))
+		for _, a := range e.lendAuctions() {
+			if rng.Chance(80) {
+				e.opBid(e.user(), a, a.auc.DebtToken.Amount.AddRaw(int64(rng.Range(0, 3))))
+			}
+		}
+		for _, usr := range e.users {
+			if rng.Chance(50) {
+				e.opCalc(usr)
 			}
 		}
 		ls := e.app.LendKeeper.GetAllLend(e.ctx)
 		bs := e.app.LendKeeper.GetAllBorrow(e.ctx)
+		tr.Count(fmt.Sprintf("final:openAuctions:%d", c08min(len(e.lendAuctions()), 9)))
 		tr.Count(fmt.Sprintf("final:lends:%d", c08min(len(ls), 9)))
 		tr.Count(fmt.Sprintf("final:borrows:%d", c08min(len(bs), 9)))
 	}
